@@ -48,6 +48,14 @@ JObjCall(e, s) ==
        TRUE, e.r.ok = st.ok, cls),
      R(p, IF s.kind = "builder" THEN "builder_history_agrees_with_direct_constructor" ELSE "state_after_call_as_specified",
        e.r.observed, ObsMatches(s.kind, e.r.obs, ObjObs(st.s)), cls),
+     \* values the object handed out earlier (built certificates, identities made from them, struct copies of the RouterInfo) are still what
+     \* they were: a value a constructor returned does not change unless the caller changes it.  Judged under every property that speaks
+     \* about constructor-built values.
+     R("C19", "results_handed_out_earlier_unaffected_by_later_calls", e.r.nkept > 0, e.r.kept_unchanged, cls),
+     R("C02", "results_handed_out_earlier_unaffected_by_later_calls", e.r.nkept > 0, e.r.kept_unchanged, cls),
+     R("C09", "results_handed_out_earlier_unaffected_by_later_calls", e.r.nkept > 0, e.r.kept_unchanged, cls),
+     R("C14", "results_handed_out_earlier_unaffected_by_later_calls", e.r.nkept > 0, e.r.kept_unchanged, cls),
+     R("X04", "results_handed_out_earlier_unaffected_by_later_calls", e.r.nkept > 0, e.r.kept_unchanged, cls),
      R("C14", "valid_value_round_trips", s.kind = "rinfo" /\ e.r.observed /\ e.r.obs.validok /\ e.r.obs.rt.done,
        e.r.obs.serok /\ e.r.obs.rt.ok /\ e.r.obs.rt.remlen = 0 /\ e.r.obs.rt.same, cls) >>
 
